@@ -2,14 +2,18 @@ package main
 
 import (
 	"encoding/json"
+	goparser "go/parser"
+	"go/token"
 	"io"
 	"os"
 	"path/filepath"
 	"sort"
 	"strings"
 
+	"github.com/antlr/antlr4/runtime/Go/antlr/v4"
 	goclI "github.com/modernizing/coca/analysis/golang/app"
 	pycli "github.com/modernizing/coca/analysis/python/app"
+	pyparser "github.com/modernizing/coca/languages/python"
 	"github.com/modernizing/coca/pkg/adapter/cocafile"
 	"github.com/modernizing/coca/pkg/application/analysis/app_concept"
 	"github.com/modernizing/coca/pkg/application/analysis/goapp"
@@ -99,7 +103,49 @@ func perFile(dir string, app app_concept.AbstractAnalysisApp, filter func(string
 	return out, files
 }
 
+// C20, no-crash clause on real-world sources: one file of a corpus on disk (Go toolchain sources, Python standard library)
+// through the front-end when its parser accepts it.  Only termination is judged.
+func corpusFile(lang, path string) (interface{}, error) {
+	b, err := os.ReadFile(path)
+	if err != nil {
+		return map[string]interface{}{"rejected": "unreadable"}, nil
+	}
+	if lang == "go" {
+		if _, err := goparser.ParseFile(token.NewFileSet(), path, b, 0); err != nil {
+			return map[string]interface{}{"rejected": "go/parser"}, nil
+		}
+		app := new(goapp.GoIdentApp)
+		members := app.IdentAnalysis(string(b), path)
+		app.SetExtensions(members)
+		cont := app.Analysis(string(b), path)
+		if _, err := json.Marshal(cont); err != nil {
+			return map[string]interface{}{"unserialisable": err.Error()}, nil
+		}
+		return map[string]interface{}{"ok": true}, nil
+	}
+	ec := &errCounter{DefaultErrorListener: antlr.NewDefaultErrorListener()}
+	lexer := pyparser.NewPythonLexer(antlr.NewInputStream(string(b)))
+	lexer.RemoveErrorListeners()
+	lexer.AddErrorListener(ec)
+	pp := pyparser.NewPythonParser(antlr.NewCommonTokenStream(lexer, antlr.TokenDefaultChannel))
+	pp.RemoveErrorListeners()
+	pp.AddErrorListener(ec)
+	pp.Root()
+	if ec.n != 0 {
+		return map[string]interface{}{"rejected": "python parser"}, nil
+	}
+	cont := new(pyapp.PythonIdentApp).Analysis(string(b), path)
+	if _, err := json.Marshal(cont); err != nil {
+		return map[string]interface{}{"unserialisable": err.Error()}, nil
+	}
+	return map[string]interface{}{"ok": true}, nil
+}
+
 func frontFamily(c map[string]json.RawMessage) (interface{}, error) {
+	if op := str(c, "op"); op == "gocorpus" || op == "pycorpus" {
+		r, err := corpusFile(op[:2], str(c, "path"))
+		return map[string]interface{}{"corpus": true, "status": r}, err
+	}
 	dir, err := writeTree(c, "files")
 	if dir != "" {
 		defer os.RemoveAll(dir)
